@@ -1,10 +1,16 @@
 #!/bin/bash
-# tools/seedtest.sh <patch.diff> <Cxx> [<Cyy> ...] : apply a seeded change to /repo, run the quick checks, undo it.
+# tools/seedtest.sh <patch.diff> <Cxx> [<Cyy> ...] : run the quick checks against a scratch worktree of /repo
+# HEAD with a seeded change applied (VERIF_REPO + separate target dir: /repo itself is never touched, so
+# this can run next to other checks). Scratch: /tmp/seed_wt, /tmp/seed_target (remove when done).
 patch=$1; shift
-cd /repo || exit 2
-git diff --quiet || { echo "/repo is dirty"; exit 2; }
-git apply "$patch" || { echo "patch does not apply"; exit 2; }
+wt=/tmp/seed_wt
+export CARGO_NET_OFFLINE=true
+if [ ! -d $wt ]; then git -C /repo worktree add -q --detach $wt HEAD || exit 2; fi
+( cd $wt && git checkout -q --detach "$(git -C /repo rev-parse HEAD)" && git reset -q --hard && git clean -qfd ) || exit 2
+( cd $wt && git apply "$patch" ) || { echo "patch does not apply"; exit 2; }
+export VERIF_REPO=$wt CARGO_TARGET_DIR=/tmp/seed_target IASTMC_BIN=/tmp/seed_target/debug/iastmc
 cd /verif
+cp -r evidence /tmp/seed_evidence_backup 2>/dev/null
 for p in "$@"; do
   out=$(./check $p --tier quick 2>&1)
   rc=$?
@@ -12,4 +18,6 @@ for p in "$@"; do
   echo "$out" | grep -E "^  rule=" | sort | uniq -c | sort -rn | head -4
   echo "$out" | grep -E "^MACHINERY" | head -3
 done
-git -C /repo checkout -- . 
+# evidence and replays written by a run on a seeded tree are not evidence about /repo
+rm -rf evidence && mv /tmp/seed_evidence_backup evidence
+( cd $wt && git reset -q --hard )
